@@ -117,3 +117,48 @@ def group_oracle_factory(which):
                                     (s, DENSE[method] + 1, [u[0] for u in use], ["%.3g" % u[1] for u in use])))
         return out
     return group_oracle
+
+
+# ---- one Radau step on y' = lambda y against the (2,3) Pade approximant (C02's Pade clause, C14's stability) ----
+def pade_builder(seed, n, defaults, tag):
+    """single accepted steps (tolerances 1: nothing is rejected) of size h on y' = lambda y with the analytic Jacobian, for
+    which the simplified Newton iteration reaches the stage equations' solution in one pass; z = h*lambda from -1e-3 to -1e8,
+    both directions of integration (backward: lambda > 0, still z < 0)"""
+    from fractions import Fraction
+    rng = random.Random(seed)
+    cases, metas = [], {}
+    k = 0
+    for z in (-1e-3, -0.5, -2.0, -7.5, -30.0, -1e3, -1e5, -1e8, 0.25):
+        for sgn in (1.0, -1.0):
+            for h in (0.5, 2.0 ** -20):
+                lam = z / (sgn * h)
+                prob = {"name": "expo", "f": [gen.mul(gen.C(lam), gen.Y(0))], "y0": [rng.choice([1.0, -3.0, 0.125])],
+                        "jac": [[gen.C(lam)]], "span": h}
+                kw = dict(method="RADAU", prob=prob, x0=0.0, xend=sgn * h, rtol=1.0, atol=1.0, defaults=defaults,
+                          first_step=h, use_jac=True)
+                cid = "%spade%d" % (tag, k)
+                k += 1
+                zz = Fraction(lam) * Fraction(sgn * h)
+                P = 1 + Fraction(2, 5) * zz + Fraction(1, 20) * zz * zz
+                Q = 1 - Fraction(3, 5) * zz + Fraction(3, 20) * zz * zz - Fraction(1, 60) * zz ** 3
+                meta = {"family": "expo", "n": 1, "backward": sgn < 0, "tolmode": "loose", "method": "RADAU",
+                        "group": "pade%d" % k, "z": float(zz), "R": float(P / Q), "h": h, "exact": None}
+                cases.append(gen.solve_case(cid, **kw))
+                metas[cid] = (meta, kw)
+    return cases, metas
+
+
+def oracle_pade(meta, kw, r):
+    out = []
+    if "R" not in meta or r.get("status") in (None, "error", "panic"):
+        return out
+    if r.get("status") != "Success" or r.get("stats", [0] * 6)[4] != 1:
+        out.append(("pade-step", "one Radau step with tolerances 1 on y' = lambda y (z = %g) was not a single accepted step: %s %r" %
+                    (meta["z"], r.get("status"), r.get("stats"))))
+        return out
+    y0 = kw["prob"]["y0"][0]
+    got = r["y"][-1][0] / y0
+    if abs(got - meta["R"]) > 1e-10 * max(1.0, abs(meta["R"])) + 1e-12:
+        out.append(("pade", "one Radau step on y' = lambda y with z = h*lambda = %g multiplies y by %r; the (2,3) Pade approximant of exp gives %r" %
+                    (meta["z"], got, meta["R"])))
+    return out
